@@ -25,7 +25,7 @@ CfgOk(r) ==
        /\ r.axial[i][2] = Npa(cc, gg, s)
        /\ r.axial[i][3] = AxialPosToZOffset4(cc, gg, s)
        /\ Len(r.axial[i]) = 3 + NumAx(cc, s)
-       /\ \A a \in 0..(NumAx(cc, s) - 1) : r.axial[i][4 + a] = 4 * (SumOf(cc, s, a) - (cc.R - 1))
+       /\ cc.uniform => \A a \in 0..(NumAx(cc, s) - 1) : r.axial[i][4 + a] = 4 * (SumOf(cc, s, a) - (cc.R - 1))
 
 ClassName(name) == IF name = "trivial" THEN "stir::TrivialSymmetryOperation"
                    ELSE IF name = "z_shift" THEN "stir::SymmetryOperation_PET_CartesianGrid_z_shift"
@@ -33,14 +33,22 @@ ClassName(name) == IF name = "trivial" THEN "stir::TrivialSymmetryOperation"
 Explains(r) ==
   CASE r.e = "Sym" ->
          LET b == BinOfList(r.b)
-             bb == FindBasic(cur.c, cur.esw, b)
-             op == FindOp(cur.c, cur.g, cur.esw, b)
-         IN /\ cur.ok /\ cur.cyl /\ InRange(cur.c, b)
+             bb == IF cur.cyl THEN FindBasic(cur.c, cur.esw, b) ELSE FindBasicBlocks(cur.c, cur.esw, b)
+             op == IF cur.cyl THEN FindOp(cur.c, cur.g, cur.esw, b) ELSE FindOpBlocks(cur.c, cur.g, cur.esw, b)
+         IN /\ cur.ok /\ (cur.cyl \/ BlocksConfigOk(cur.c, cur.g)) /\ InRange(cur.c, b)
             /\ BinOfList(r.bb) = bb /\ BinOfList(r.bb2) = bb /\ r.chg = (bb # b)
             /\ r.op = ClassName(op.name) /\ r.triv = (op.name = "trivial")
             /\ BinOfList(r.tb) = BinMap(op, bb)
             /\ << r.p1[1], r.p1[2], r.p1[3] >> = VoxMap(op, <<3, 2, 1>>)
             /\ << r.p2[1], r.p2[2], r.p2[3] >> = VoxMap(op, <<0, 1, -2>>)
+    [] r.e = "Rel" /\ ~cur.cyl ->
+         \* block geometry: the bins related to a basic bin are those with that basic bin; their number is reported
+         LET b == BinOfList(r.b)
+             S == { BinOfList(r.rel[i]) : i \in 1..Len(r.rel) }
+             orbit == { x \in AllBins(cur.c) : x.seg = b.seg /\ x.view = b.view /\ x.tang = b.tang /\ FindBasicBlocks(cur.c, cur.esw, x) = b }
+         IN /\ cur.ok /\ BlocksConfigOk(cur.c, cur.g) /\ FindBasicBlocks(cur.c, cur.esw, b) = b
+            /\ S = orbit /\ Cardinality(S) = Len(r.rel)
+            /\ r.n = Cardinality(orbit)
     [] r.e = "Rel" ->
          LET b == BinOfList(r.b)
              S == { BinOfList(r.rel[i]) : i \in 1..Len(r.rel) }
